@@ -108,7 +108,7 @@ func genRProbes(t *rapid.T) []refmodel.RObjectSetProbe {
 				p.Probes = append(p.Probes, refmodel.RProbe{Kind: "fieldsEqual",
 					FieldA: rapid.SampledFrom(c17Fields).Draw(t, "fa"), FieldB: rapid.SampledFrom(c17Fields).Draw(t, "fb")})
 			default:
-				p.Probes = append(p.Probes, refmodel.RProbe{Kind: "cel", CEL: genExpr(t, 2), CELMessage: fmt.Sprintf("rule-%d-%d failed", i, j)})
+				p.Probes = append(p.Probes, refmodel.RProbe{Kind: "cel", CEL: genExpr(t, 2), CELMessage: rapid.SampledFrom([]string{fmt.Sprintf("rule-%d-%d failed", i, j), fmt.Sprintf("rule-%d-%d failed", i, j), "", " "}).Draw(t, "celmsg")})
 			}
 		}
 		out = append(out, p)
